@@ -406,7 +406,12 @@ fn build_case(raw: Raw, opts: &GenOpts) -> Case {
         }
     }
     // --- the points
-    let ts = unit_points(fam, &raw.pts, &raw.p, d);
+    let mut ts = unit_points(fam, &raw.pts, &raw.p, d);
+    // boxes of a tiny absolute scale (< 2^-20) send every clip decision to the exact predicate
+    // (the filter's error bound has an absolute floor): cap the size so that the cost stays fixed
+    if raw.e < -20 {
+        ts.truncate(200);
+    }
     let mut gens: Vec<[f64; 3]> = Vec::with_capacity(ts.len());
     let mut mvals: Vec<f64> = Vec::with_capacity(ts.len());
     for (i, t) in ts.iter().enumerate() {
@@ -589,7 +594,7 @@ fn raw_strategy(opts: &GenOpts) -> BoxedStrategy<Raw> {
     let fam_weights: Vec<(u32, BoxedStrategy<usize>)> =
         opts.fams.iter().enumerate().map(|(i, (w, _))| (*w, Just(i).boxed())).collect();
     let fam = proptest::strategy::Union::new_weighted(fam_weights);
-    let e = prop_oneof![6 => Just(0i32), 2 => -3i32..=3, 2 => -20i32..=36];
+    let e = prop_oneof![6 => Just(0i32), 2 => -3i32..=3, 2 => -20i32..=36, 1 => -60i32..=-21];
     let asp = prop_oneof![5 => Just([0u32, 0, 0]), 3 => [0u32..4, 0u32..4, 0u32..4], 2 => [0u32..15, 0u32..15, 0u32..15]];
     (
         (proptest::sample::select(dims), any::<bool>(), fam, pts, any::<[u32; 6]>()),
